@@ -663,3 +663,6 @@ fn accept_group<'a>(group_key_mapping: &HashMap<ExpressionTreeHash, usize>,
 
     Ok(true)
 }
+#[cfg(kani)]
+#[path = "/verif/kani/aggregate_execution.rs"]
+mod verif_kani;
